@@ -49,17 +49,18 @@ def run(tier, seed):
     res = common.Result(PROP, tier, seed, "model_checking")
     wd = common.workdir(PROP)
     devs, known = common.load_findings(PROP)
-    cases = cases_for(tier, seed)
+    cases = c04.model_part(tier, seed, wd, res) + cases_for(tier, seed)
     if tier != "quick":
         cases += [dict(c, id="q" + c["id"]) for c in c04.cases_for(tier, seed + 7)[:2000]]
     raws = common.run_cases_parallel("cluster", cases, wd, procs=12, timeout=3000,
                                      env={"NUN_ELECTION_TIMEOUT": "10"})
     norm_path = os.path.join(wd, "norm.ndjson")
     cluster.normalize(raws, norm_path)
+    res.coverage.update(c04.schedule_stats(raws))
     out = common.validate_into(res, norm_path, "Trace_Cluster.tla", "Trace_Cluster.cfg", CHECKS, devs,
                                "/dev/null", wd, {c["id"]: c for c in cases})
     res.coverage.update({
-        "states": out["states"], "transitions": out["events"], "model": "Trace_Cluster.tla (ClusterMonitor reference, group BUDGET)",
+        "reference": "Trace_Cluster.tla (ClusterMonitor, group BUDGET)",
         "traces_validated_against_impl": out["runs"], "events_validated": out["events"], "cases": len(cases),
         "samples": [[o["line"] + " @" + o["node"] for o in cases[len(cases) // 2]["ops"]]],
         "exhaustive": False,
